@@ -351,7 +351,12 @@ func evalBin(op string, l, r Value) Value {
 	case TString:
 		switch op {
 		case "+":
-			return VS(l.S + r.AsString())
+			rs := r.AsString()
+			if len(l.S)+len(rs) > 1<<20 {
+				// a string doubling in a loop outruns any step budget: the same verdict
+				panic(ErrBudget{})
+			}
+			return VS(l.S + rs)
 		case "==", "!=", "<", ">", "<=", ">=":
 			return VB(cmpStr(op, l.S, r.AsString()))
 		case "-", "*", "/", "%":
